@@ -17,7 +17,7 @@ ASSUMPTIONS = [
     "relations are evaluated only when every conversion involved succeeds (the statement's own condition)",
     "linearity / self-conversion tolerance 1e-12 relative; round trip and via-intermediate 1e-5 relative per degree on "
     "shipped definitions, widened by the oracle's size interval where shipped declarations disagree; 1e-12 on synthetic",
-    "units of dimension Number inside compounds are excluded here (known finding of C04)",
+    "units of dimension Number inside compounds are excluded from the random triples (known finding of C04); one angle unit at exponent +1 on each side is asked in a section of its own",
 ]
 SHARDS = {"quick": 4, "thorough": 14}
 R12 = Fraction(1, 10**12)
@@ -29,6 +29,71 @@ def rel_diff(a, b):
     if a == b:
         return Fraction(0)
     return abs(a - b) / max(abs(a), abs(b))
+
+
+def angles_in_compounds(ctx, env):
+    """One angle unit at exponent +1 on each side, next to physical factors that cancel within a side or convert across the
+    sides (rad/s * h -> degree; rad*m/ft -> arcminute; degree*ft -> rad*m; rad*m/s -> degree*ft/min): the shapes with a
+    dimensionless unit that this library converts correctly.  (Negative or higher exponents on the dimensionless unit, or
+    cancelling surplus of different dimensions on the two sides, are the known finding of C04 and are not asked here.)
+    The direct answer, the answer by way of the radian, and there-and-back agree with the sizes of the units"""
+    import math
+    m, rng = env.m, ctx.rng
+    U = m.Unit._by_name
+    Q = m.Quantity
+    angles = {n: v for n, v in (("radian", 1.0), ("degree", math.pi / 180), ("arcminute", math.pi / 10800), ("arcsecond", math.pi / 648000)) if n in U}
+    lens = {n: v for n, v in (("meter", 1.0), ("foot", 0.3048), ("inch", 0.0254), ("mile", 1609.344)) if n in U}
+    times = {n: v for n, v in (("second", 1.0), ("minute", 60.0), ("hour", 3600.0)) if n in U}
+    energy = {n: v for n, v in (("joule", 1.0), ("watt", None)) if n in U}
+    if len(angles) < 2 or len(lens) < 2 or len(times) < 2:
+        ctx.count("angles_in_compounds_skipped")
+        return
+    for _ in range(ctx.scale(150, 20000)):
+        a1, a2 = rng.sample(sorted(angles), 2)
+        l1, l2, l3, l4 = (rng.choice(sorted(lens)) for _ in range(4))
+        t1, t2 = rng.choice(sorted(times)), rng.choice(sorted(times))
+        kind = rng.choice(["angle*len/len -> angle", "angle/time*time -> angle", "angle*len -> angle*len", "angle/time -> angle/time", "angle*len/len -> angle*len/len",
+                           "angle -> angle*len/len", "angle*len/time -> angle*len/time", "angle*W*h -> angle*J"])
+        if kind == "angle*len/len -> angle":
+            src, sv, dst, dv = U[a1] * U[l1] / U[l2], angles[a1] * lens[l1] / lens[l2], U[a2], angles[a2]
+        elif kind == "angle/time*time -> angle":
+            src, sv, dst, dv = U[a1] / U[t1] * U[t2], angles[a1] / times[t1] * times[t2], U[a2], angles[a2]
+        elif kind == "angle*len -> angle*len":
+            src, sv, dst, dv = U[a1] * U[l1], angles[a1] * lens[l1], U[a2] * U[l2], angles[a2] * lens[l2]
+        elif kind == "angle/time -> angle/time":
+            src, sv, dst, dv = U[a1] / U[t1], angles[a1] / times[t1], U[a2] / U[t2], angles[a2] / times[t2]
+        elif kind == "angle*len/len -> angle*len/len":
+            src, sv, dst, dv = U[a1] * U[l1] / U[l2], angles[a1] * lens[l1] / lens[l2], U[a2] * U[l3] / U[l4], angles[a2] * lens[l3] / lens[l4]
+        elif kind == "angle -> angle*len/len":
+            src, sv, dst, dv = U[a1], angles[a1], U[a2] * U[l3] / U[l4], angles[a2] * lens[l3] / lens[l4]
+        elif kind == "angle*len/time -> angle*len/time":
+            src, sv, dst, dv = U[a1] * U[l1] / U[t1], angles[a1] * lens[l1] / times[t1], U[a2] * U[l2] / U[t2], angles[a2] * lens[l2] / times[t2]
+        else:
+            if "watt" not in U or "joule" not in U:
+                continue
+            src, sv, dst, dv = U[a1] * U["watt"] * U[t1], angles[a1] * times[t1], U[a2] * U["joule"], angles[a2]
+        mag = rng.choice([2.0, 6, -3.5, 1000.0, Decimal("2.5")])
+        want = float(mag) * sv / dv
+        case = {"shape": kind, "source": str(src), "target": str(dst), "magnitude": repr(mag)}
+        ctx.count("evaluations")
+        ctx.count(f"angles_in_compounds/{kind}")
+        ctx.distinct(("angle-in-compound", kind, a1, a2), True)
+        try:
+            direct = Q(mag, src).in_unit(dst)
+            via = Q(mag, src).in_unit(U["radian"] * (src / U[a1])).in_unit(dst) if a1 != "radian" else None
+            back = direct.in_unit(src)
+        except env.conv.ConversionNotFound:
+            ctx.count("angles_in_compounds/refused")
+            continue
+        except Exception as e:
+            ctx.violation(f"C05:raised:{type(e).__name__}", f"{mag} {src} -> {dst}: {e}", case)
+            continue
+        if abs(float(direct.magnitude) - want) > 1e-9 * abs(want):
+            ctx.violation("C05:route-dependent", f"{mag} {src} -> {dst} = {direct.magnitude!r}; the sizes of the units give {want!r} (an angle unit stands once on each side)", case)
+        if via is not None and abs(float(via.magnitude) - float(direct.magnitude)) > 1e-9 * abs(want):
+            ctx.violation("C05:route-dependent", f"{mag} {src} -> {dst} = {direct.magnitude!r} directly, {via.magnitude!r} by way of the radian", case)
+        if abs(float(back.magnitude) - float(mag)) > 1e-9 * abs(float(mag)):
+            ctx.violation("C05:round-trip", f"{mag} {src} -> {dst} -> back = {back.magnitude!r}", case)
 
 
 def run(ctx):
@@ -44,6 +109,7 @@ def run(ctx):
     kit.aliasing_probe(ctx, env.m, "C05")   # before anything else: what follows runs in a process whose program aliases and updates in place
     m, mdl, pools, rng, orc = env.m, env.mdl, env.pools, ctx.rng, env.orc
     CNF = env.conv.ConversionNotFound
+    angles_in_compounds(ctx, env)
     n = ctx.scale(8000, 300_000)
     for i in range(n):
         ctx.count("evaluations")
